@@ -1,8 +1,618 @@
 package main
 
-// tryReplay: turn a counterexample into a test against the real code (filled in per signature class).
-func tryReplay(o *checkOpts, ob *Obligation, c *FuncCtx) string {
-	return replayGeneric(o, ob, c)
+// Replay of solver counterexamples on the real code.
+//
+// For a failed obligation with a model, the function inputs are rebuilt as Go values from the model (regIn lists the
+// terms that are read back; goValue turns them into Go source), an in-package test is generated that calls the real
+// function under recover() and — for postconditions — evaluates the violated clause compiled to Go, and the test is
+// run with `go test -overlay` (nothing is written into the repository). The violation is reported as reproduced only
+// if the real code panics (safety classes) or the compiled clause is false (postconditions).
+
+import (
+	"encoding/json"
+	"fmt"
+	"go/types"
+	"os"
+	"os/exec"
+	"path/filepath"
+	"sort"
+	"strconv"
+	"strings"
+	"time"
+
+	"golang.org/x/tools/go/ssa"
+)
+
+const replayElems = 4 // slice elements read back from a model
+const replayStr = 24  // string bytes read back from a model
+
+// regIn registers the model terms describing one input value (recursively, bounded).
+func (c *FuncCtx) regIn(name string, v Val, st *State, depth int) {
+	if depth > 3 || v.Tup != nil || v.T == nil {
+		return
+	}
+	add := func(n, term, kind string) { c.inputs = append(c.inputs, ModelVar{Name: n, Term: term, Kind: kind}) }
+	switch u := v.T.Underlying().(type) {
+	case *types.Basic:
+		switch {
+		case isString(v.T):
+			add(name, fmt.Sprintf("(slen %s)", v.S), "strlen")
+			for i := 0; i < replayStr; i++ {
+				add(fmt.Sprintf("%s[%d]", name, i), fmt.Sprintf("(sat %s %s)", v.S, c.so.idxLit(int64(i))), "strbyte")
+			}
+		case isBool(v.T):
+			add(name, v.S, "bool")
+		default:
+			if _, _, ok := intInfo(v.T); ok {
+				add(name, v.S, "int")
+			}
+		}
+	case *types.Slice:
+		add("len("+name+")", fmt.Sprintf("(s_len %s)", v.S), "int")
+		if st == nil || c.mode != ModeInt {
+			return
+		}
+		h := st.get(c.so.heapArr(u.Elem()))
+		n := replayElems
+		if isByteSlice(v.T) {
+			n = replayStr
+		}
+		for i := 0; i < n; i++ {
+			el := fmt.Sprintf("(select (select %s (s_ref %s)) (+ (s_off %s) %d))", h, v.S, v.S, i)
+			c.regIn(fmt.Sprintf("%s[%d]", name, i), Val{T: u.Elem(), S: el}, st, depth+1)
+		}
+	case *types.Struct:
+		sn := c.so.structSort(v.T, u)
+		for i := 0; i < u.NumFields(); i++ {
+			f := u.Field(i)
+			if f.Name() == "_" {
+				continue
+			}
+			c.regIn(name+"."+f.Name(), Val{T: f.Type(), S: fmt.Sprintf("(%s %s)", c.so.fieldSel(sn, u, i), v.S)}, st, depth+1)
+		}
+	case *types.Pointer:
+		add(name, c.termOf(v), "ptr")
+		if st == nil {
+			return
+		}
+		if stt, ok := u.Elem().Underlying().(*types.Struct); ok && depth < 2 {
+			p := c.ptrOf(v)
+			if len(p.Path) > 0 {
+				return
+			}
+			for i := 0; i < stt.NumFields(); i++ {
+				f := stt.Field(i)
+				if f.Name() == "_" {
+					continue
+				}
+				fp := &Ptr{Root: p.Root, Obj: p.Obj, Path: []PathEl{{Field: i, T: f.Type()}}}
+				c.regIn(name+"."+f.Name(), Val{T: f.Type(), S: c.load(st, fp, f.Type())}, st, depth+1)
+			}
+		}
+	}
 }
 
-func replayGeneric(o *checkOpts, ob *Obligation, c *FuncCtx) string { return "" }
+// ---------------------------------------------------------------------------
+
+type goBuilder struct {
+	model   map[string]string
+	pkg     *types.Package
+	imports map[string]bool
+	notes   []string
+}
+
+func (g *goBuilder) qual(p *types.Package) string {
+	if p == g.pkg {
+		return ""
+	}
+	g.imports[p.Path()] = true
+	return p.Name()
+}
+
+func (g *goBuilder) typeStr(t types.Type) string { return types.TypeString(t, g.qual) }
+
+func (g *goBuilder) intOf(path string) (int64, bool) {
+	v, ok := g.model[path]
+	if !ok {
+		return 0, false
+	}
+	n, err := strconv.ParseInt(v, 10, 64)
+	if err != nil {
+		u, err2 := strconv.ParseUint(v, 10, 64)
+		if err2 != nil {
+			return 0, false
+		}
+		return int64(u), true
+	}
+	return n, true
+}
+
+func (g *goBuilder) strOf(path string) string {
+	n, _ := g.intOf(path)
+	if n < 0 {
+		n = 0
+	}
+	if n > 4096 {
+		g.notes = append(g.notes, fmt.Sprintf("%s: length %d in the model cut to 4096", path, n))
+		n = 4096
+	}
+	bs := make([]byte, n)
+	for i := range bs {
+		bs[i] = 'a'
+		if i < replayStr {
+			if b, ok := g.intOf(fmt.Sprintf("%s[%d]", path, i)); ok {
+				bs[i] = byte(b)
+			}
+		}
+	}
+	return string(bs)
+}
+
+// goValue returns Go source constructing the value at `path` of type t.
+func (g *goBuilder) goValue(t types.Type, path string, depth int) string {
+	if depth > 4 {
+		return "*new(" + g.typeStr(t) + ")"
+	}
+	switch u := t.Underlying().(type) {
+	case *types.Basic:
+		switch {
+		case isString(t):
+			return g.typeConv(t, strconv.Quote(g.strOf(path)))
+		case isBool(t):
+			return g.typeConv(t, fmt.Sprint(g.model[path] == "true"))
+		default:
+			if _, _, ok := intInfo(t); ok {
+				v := g.model[path]
+				if v == "" {
+					v = "0"
+				}
+				return g.typeConv(t, v)
+			}
+		}
+	case *types.Slice:
+		n, ok := g.intOf("len(" + path + ")")
+		if !ok || n <= 0 {
+			if ok && n == 0 {
+				return g.typeStr(t) + "{}"
+			}
+			return "nil"
+		}
+		if isByteSlice(t) {
+			// bytes are registered as elements path[i]
+			if n > 4096 {
+				n = 4096
+			}
+			bs := make([]byte, n)
+			for i := range bs {
+				if b, ok := g.intOf(fmt.Sprintf("%s[%d]", path, i)); ok {
+					bs[i] = byte(b)
+				}
+			}
+			return "[]byte(" + strconv.Quote(string(bs)) + ")"
+		}
+		if n > 64 {
+			g.notes = append(g.notes, fmt.Sprintf("len(%s) = %d in the model cut to 64", path, n))
+			n = 64
+		}
+		var els []string
+		for i := int64(0); i < n; i++ {
+			p := fmt.Sprintf("%s[%d]", path, i)
+			if i >= replayElems {
+				p = fmt.Sprintf("%s[%d]", path, replayElems-1) // beyond what was read back: repeat the last known element
+			}
+			els = append(els, g.goValue(u.Elem(), p, depth+1))
+		}
+		return g.typeStr(t) + "{" + strings.Join(els, ", ") + "}"
+	case *types.Struct:
+		if n, ok := t.(*types.Named); ok && n.Obj().Name() == "RedisMessage" {
+			return g.redisMessage(path, depth)
+		}
+		var fs []string
+		for i := 0; i < u.NumFields(); i++ {
+			f := u.Field(i)
+			if f.Name() == "_" {
+				continue
+			}
+			if !f.Exported() && f.Pkg() != g.pkg {
+				continue
+			}
+			switch f.Type().Underlying().(type) {
+			case *types.Basic, *types.Slice, *types.Struct, *types.Pointer:
+				fs = append(fs, f.Name()+": "+g.goValue(f.Type(), path+"."+f.Name(), depth+1))
+			}
+		}
+		return g.typeStr(t) + "{" + strings.Join(fs, ", ") + "}"
+	case *types.Pointer:
+		if v, ok := g.model[path]; ok && v == "0" {
+			return "nil"
+		}
+		if _, ok := u.Elem().Underlying().(*types.Struct); ok {
+			inner := g.goValue(u.Elem(), path, depth+1)
+			if strings.HasPrefix(inner, "*new(") {
+				return "new(" + g.typeStr(u.Elem()) + ")"
+			}
+			return fmt.Sprintf("func() *%s { v := %s; return &v }()", g.typeStr(u.Elem()), inner)
+		}
+		return "new(" + g.typeStr(u.Elem()) + ")"
+	}
+	return "*new(" + g.typeStr(t) + ")"
+}
+
+func (g *goBuilder) typeConv(t types.Type, lit string) string {
+	if _, named := t.(*types.Named); named {
+		return g.typeStr(t) + "(" + lit + ")"
+	}
+	if b, ok := t.(*types.Basic); ok && (b.Kind() == types.Int || b.Kind() == types.String || b.Kind() == types.Bool) {
+		return lit
+	}
+	return g.typeStr(t) + "(" + lit + ")"
+}
+
+// redisMessage builds a RedisMessage value: scalar fields from the model; payload pointers are rebuilt as
+// non-nil/nil only (their contents are not read back), which is enough for shape-dependent panics.
+func (g *goBuilder) redisMessage(path string, depth int) string {
+	typ, _ := g.intOf(path + ".typ")
+	intlen, _ := g.intOf(path + ".intlen")
+	bytesNonNil := g.model[path+".bytes"] != "" && g.model[path+".bytes"] != "0"
+	arrNonNil := g.model[path+".array"] != "" && g.model[path+".array"] != "0"
+	if arrNonNil {
+		n := intlen
+		if n < 0 {
+			n = 0
+		}
+		if n > 16 {
+			n = 16
+		}
+		return fmt.Sprintf("func() RedisMessage { m := slicemsg(%d, make([]RedisMessage, %d)); m.intlen = %d; return m }()", typ, n, intlen)
+	}
+	if bytesNonNil {
+		n := intlen
+		if n < 0 {
+			n = 0
+		}
+		if n > 64 {
+			n = 64
+		}
+		return fmt.Sprintf("func() RedisMessage { m := strmsg(%d, %s); m.intlen = %d; return m }()", typ, strconv.Quote(strings.Repeat("a", int(n))), intlen)
+	}
+	return fmt.Sprintf("RedisMessage{typ: %d, intlen: %d}", typ, intlen)
+}
+
+// ---------------------------------------------------------------------------
+// spec clause -> Go expression
+
+type goClause struct {
+	g       *goBuilder
+	fn      *ssa.Function
+	resN    int
+	unsupported string
+	qn      int
+}
+
+func (gc *goClause) expr(x SpecExpr) string {
+	switch x := x.(type) {
+	case *SInt:
+		return x.V
+	case *SBool:
+		return fmt.Sprint(x.V)
+	case *SStr:
+		return strconv.Quote(x.V)
+	case *SNil:
+		return "nil"
+	case *SIdent:
+		switch {
+		case x.Name == "result":
+			return "r0"
+		case strings.HasPrefix(x.Name, "result") && len(x.Name) == 7:
+			return "r" + x.Name[6:]
+		}
+		rs := gc.fn.Signature.Results()
+		for i := 0; i < rs.Len(); i++ {
+			if rs.At(i).Name() == x.Name && x.Name != "" {
+				return fmt.Sprintf("r%d", i)
+			}
+		}
+		return x.Name
+	case *SUnary:
+		return "(" + x.Op + gc.expr(x.X) + ")"
+	case *SBinary:
+		a, b := gc.expr(x.X), gc.expr(x.Y)
+		switch x.Op {
+		case "==>":
+			return "(!(" + a + ") || (" + b + "))"
+		case "<==>":
+			return "((" + a + ") == (" + b + "))"
+		}
+		return "(" + a + " " + x.Op + " " + b + ")"
+	case *SSelector:
+		return gc.expr(x.X) + "." + x.Sel
+	case *SIndex:
+		return gc.expr(x.X) + "[" + gc.expr(x.I) + "]"
+	case *SSlice:
+		lo, hi := "", ""
+		if x.Lo != nil {
+			lo = gc.expr(x.Lo)
+		}
+		if x.Hi != nil {
+			hi = gc.expr(x.Hi)
+		}
+		return gc.expr(x.X) + "[" + lo + ":" + hi + "]"
+	case *SCall:
+		if id, ok := x.Fun.(*SIdent); ok {
+			switch id.Name {
+			case "old":
+				// inputs are rebuilt twice (a pristine copy `old_<name>` is kept for every parameter)
+				return gc.oldExpr(x.Args[0])
+			case "ite":
+				return fmt.Sprintf("func() int64 { if %s { return int64(%s) }; return int64(%s) }()", gc.expr(x.Args[0]), gc.expr(x.Args[1]), gc.expr(x.Args[2]))
+			case "effects", "typeis", "has", "first", "second", "be64", "le32", "le64", "be32":
+				gc.unsupported = id.Name + "() cannot be evaluated on the real code"
+				return "false"
+			}
+		}
+		var as []string
+		for _, a := range x.Args {
+			as = append(as, gc.expr(a))
+		}
+		return gc.expr(x.Fun) + "(" + strings.Join(as, ", ") + ")"
+	case *SQuant:
+		// bounded quantifiers over int:  forall i int :: lo <= i && i < hi ==> body   (range taken from the clause)
+		gc.qn++
+		if len(x.Vars) != 1 || x.Vars[0].Type != "int" {
+			gc.unsupported = "quantifier over a non-int domain"
+			return "false"
+		}
+		v := x.Vars[0].Name
+		body := gc.expr(x.Body)
+		if x.Forall {
+			return fmt.Sprintf("func() bool { for %s := -2; %s < 300; %s++ { if !func() (ok bool) { defer func() { if recover() != nil { ok = true } }(); return %s }() { return false } }; return true }()", v, v, v, body)
+		}
+		return fmt.Sprintf("func() bool { for %s := -2; %s < 300; %s++ { if func() (ok bool) { defer func() { if recover() != nil { ok = false } }(); return %s }() { return true } }; return false }()", v, v, v, body)
+	}
+	gc.unsupported = fmt.Sprintf("expression %T", x)
+	return "false"
+}
+
+func (gc *goClause) oldExpr(x SpecExpr) string {
+	switch x := x.(type) {
+	case *SIdent:
+		return "old_" + x.Name
+	case *SSelector:
+		return gc.oldExpr(x.X) + "." + x.Sel
+	case *SIndex:
+		return gc.oldExpr(x.X) + "[" + gc.expr(x.I) + "]"
+	}
+	gc.unsupported = "old() of a compound expression"
+	return "false"
+}
+
+// ---------------------------------------------------------------------------
+
+func replayGeneric(o *checkOpts, ob *Obligation, c *FuncCtx) string {
+	if len(ob.Model) == 0 || c == nil || c.rootFn == nil {
+		return ""
+	}
+	fn := c.rootFn
+	pk := fn.Pkg
+	target := fn
+	for p := fn.Parent(); p != nil; p = p.Parent() {
+		if pk == nil {
+			pk = p.Pkg
+		}
+		target = p
+	}
+	if fn.Parent() != nil && fn.Parent().Parent() != nil {
+		return "REPLAY: not attempted (closure nested more than one level)"
+	}
+	for _, p := range fn.Params {
+		if foreignOpaque(p.Type(), pk.Pkg) {
+			return "REPLAY: not attempted (input of type " + types.TypeString(p.Type(), nil) + " cannot be rebuilt from a model: its state is private to another package)"
+		}
+	}
+	if pk == nil {
+		return ""
+	}
+	g := &goBuilder{model: ob.Model, pkg: pk.Pkg, imports: map[string]bool{"fmt": true, "testing": true}}
+	var b strings.Builder
+	var decls []string
+	mk := func(name string, t types.Type) {
+		decls = append(decls, fmt.Sprintf("\t%s := %s\n\t_ = %s", name, g.goValue(t, name, 0), name))
+		decls = append(decls, fmt.Sprintf("\told_%s := %s\n\t_ = old_%s", name, g.goValue(t, name, 0), name))
+	}
+	var call string
+	if fn.Parent() != nil {
+		// closure: rebuild it through its parent with the captured values, then call it
+		for _, fv := range fn.FreeVars {
+			mk(fv.Name(), fv.Type().Underlying().(*types.Pointer).Elem())
+		}
+		var pargs []string
+		for _, p := range target.Params {
+			found := false
+			for _, fv := range fn.FreeVars {
+				if fv.Name() == p.Name() {
+					found = true
+				}
+			}
+			if !found {
+				return "REPLAY: not attempted (closure captures values that are not parameters of its parent)"
+			}
+			pargs = append(pargs, p.Name())
+		}
+		var args []string
+		for i, p := range fn.Params {
+			n := p.Name()
+			if n == "_" || n == "" {
+				n = fmt.Sprintf("arg%d", i)
+			}
+			decls = append(decls, fmt.Sprintf("\t%s := %s\n\t_ = %s", n, g.goValue(p.Type(), p.Name(), 0), n))
+			args = append(args, n)
+		}
+		if target.Signature.Recv() != nil {
+			return "REPLAY: not attempted (closure inside a method)"
+		}
+		call = fmt.Sprintf("%s(%s)(%s)", target.Name(), strings.Join(pargs, ", "), strings.Join(args, ", "))
+	} else {
+		var args []string
+		for i, p := range fn.Params {
+			mk(p.Name(), p.Type())
+			if i == 0 && fn.Signature.Recv() != nil {
+				continue
+			}
+			a := p.Name()
+			if fn.Signature.Variadic() && i == len(fn.Params)-1 {
+				a += "..."
+			}
+			args = append(args, a)
+		}
+		if fn.Signature.Recv() != nil {
+			call = fmt.Sprintf("%s.%s(%s)", fn.Params[0].Name(), fn.Name(), strings.Join(args, ", "))
+		} else {
+			call = fmt.Sprintf("%s(%s)", fn.Name(), strings.Join(args, ", "))
+		}
+	}
+	nres := fn.Signature.Results().Len()
+	var rs []string
+	for i := 0; i < nres; i++ {
+		rs = append(rs, fmt.Sprintf("r%d", i))
+	}
+	// the clause to evaluate (postconditions only)
+	check := ""
+	gc := &goClause{g: g, fn: fn, resN: nres}
+	if ob.Class == "ensures" || ob.Class == "must-panic" {
+		if cl := findClause(c, ob); cl != nil {
+			e := gc.expr(cl.Expr)
+			if ob.Class == "must-panic" {
+				e = "!(" + e + ")"
+			}
+			if gc.unsupported == "" {
+				check = e
+			}
+		}
+	}
+	safetyClass := claimsSafety(ob) || ob.Class == "panic" || ob.Class == "unsafe-string" || ob.Class == "unsafe-slice"
+	if check == "" && !safetyClass {
+		why := gc.unsupported
+		if why == "" {
+			why = "obligation class " + ob.Class + " has no executable oracle"
+		}
+		return "REPLAY: not attempted (" + why + ")"
+	}
+	fmt.Fprintf(&b, "func TestZZGowpReplay(t *testing.T) {\n%s\n", strings.Join(decls, "\n"))
+	fmt.Fprintf(&b, "\tpanicked := true\n\tfunc() {\n\t\tdefer func() {\n\t\t\tif r := recover(); r != nil {\n\t\t\t\tfmt.Printf(\"REPLAY-PANIC: %%v\\n\", r)\n\t\t\t}\n\t\t}()\n")
+	if nres > 0 {
+		fmt.Fprintf(&b, "\t\t%s := %s\n", strings.Join(rs, ", "), call)
+		for _, r := range rs {
+			fmt.Fprintf(&b, "\t\t_ = %s\n", r)
+		}
+	} else {
+		fmt.Fprintf(&b, "\t\t%s\n", call)
+	}
+	fmt.Fprintf(&b, "\t\tpanicked = false\n")
+	if check != "" {
+		fmt.Fprintf(&b, "\t\tif !(%s) {\n\t\t\tfmt.Println(\"REPLAY-CLAUSE-FALSE\")\n\t\t} else {\n\t\t\tfmt.Println(\"REPLAY-CLAUSE-HOLDS\")\n\t\t}\n", check)
+	}
+	fmt.Fprintf(&b, "\t}()\n\t_ = panicked\n\tfmt.Println(\"REPLAY-DONE\")\n}\n")
+	var imps []string
+	for p := range g.imports {
+		imps = append(imps, strconv.Quote(p))
+	}
+	sort.Strings(imps)
+	src := fmt.Sprintf("package %s\n\nimport (\n\t%s\n)\n\n%s", pk.Pkg.Name(), strings.Join(imps, "\n\t"), b.String())
+	// run it
+	dir := filepath.Dir(c.eng.fset.Position(target.Pos()).Filename)
+	tmp, err := os.MkdirTemp("", "gowp-replay-")
+	if err != nil {
+		return "REPLAY: not attempted (" + err.Error() + ")"
+	}
+	defer os.RemoveAll(tmp)
+	testFile := filepath.Join(tmp, "zz_gowp_replay_test.go")
+	os.WriteFile(testFile, []byte(src), 0o644)
+	ov, _ := json.Marshal(map[string]any{"Replace": map[string]string{filepath.Join(dir, "zz_gowp_replay_test.go"): testFile}})
+	ovFile := filepath.Join(tmp, "overlay.json")
+	os.WriteFile(ovFile, ov, 0o644)
+	cmd := exec.Command("go", "test", "-overlay", ovFile, "-vet=off", "-count=1", "-timeout", "60s", "-run", "^TestZZGowpReplay$", "-v", ".")
+	cmd.Dir = dir
+	cmd.Env = append(os.Environ(), "GOFLAGS=-mod=mod", "GOPROXY=off")
+	done := make(chan struct{})
+	var out []byte
+	go func() { out, _ = cmd.CombinedOutput(); close(done) }()
+	select {
+	case <-done:
+	case <-time.After(120 * time.Second):
+		if cmd.Process != nil {
+			cmd.Process.Kill()
+		}
+		return "REPLAY: test did not finish in 120 s\n--- generated test ---\n" + src
+	}
+	text := string(out)
+	verdict := "REPLAY: the real code did not misbehave on the model's inputs (candidate counterexample not confirmed)"
+	switch {
+	case !strings.Contains(text, "REPLAY-DONE") && !strings.Contains(text, "REPLAY-PANIC") && !strings.Contains(text, "REPLAY-CLAUSE"):
+		verdict = "REPLAY: generated test did not build or run:\n" + firstLines(text, 12)
+	case safetyClass && strings.Contains(text, "REPLAY-PANIC"):
+		verdict = "REPLAY: reproduced on the real code — " + grepLine(text, "REPLAY-PANIC")
+	case check != "" && strings.Contains(text, "REPLAY-CLAUSE-FALSE"):
+		verdict = "REPLAY: reproduced on the real code — the violated clause evaluates to false on the real function's result"
+	case ob.Class == "must-panic" && strings.Contains(text, "REPLAY-PANIC"):
+		verdict = "REPLAY: the real code panics on these inputs (the clause requires a panic): not a counterexample"
+	}
+	if len(g.notes) > 0 {
+		verdict += "\n(notes: " + strings.Join(g.notes, "; ") + ")"
+	}
+	return verdict + "\n--- generated test (" + filepath.Join(dir, "zz_gowp_replay_test.go") + ", injected with go test -overlay) ---\n" + src
+}
+
+// foreignOpaque: pointer / struct types of other packages with unexported fields (bufio.Reader, net.Conn, ...)
+func foreignOpaque(t types.Type, pkg *types.Package) bool {
+	if p, ok := t.Underlying().(*types.Pointer); ok {
+		t = p.Elem()
+	}
+	n, ok := t.(*types.Named)
+	if !ok || n.Obj().Pkg() == nil || n.Obj().Pkg() == pkg {
+		return false
+	}
+	if _, isIface := t.Underlying().(*types.Interface); isIface {
+		return true
+	}
+	st, ok := t.Underlying().(*types.Struct)
+	if !ok {
+		return false
+	}
+	for i := 0; i < st.NumFields(); i++ {
+		if !st.Field(i).Exported() {
+			return true
+		}
+	}
+	return false
+}
+
+func grepLine(text, key string) string {
+	for _, ln := range strings.Split(text, "\n") {
+		if strings.Contains(ln, key) {
+			return strings.TrimSpace(ln)
+		}
+	}
+	return ""
+}
+
+func findClause(c *FuncCtx, ob *Obligation) *Clause {
+	con := c.rootCon
+	if con == nil {
+		return nil
+	}
+	for _, cl := range append(append([]*Clause{}, con.Ensures...), con.PanicsWhen...) {
+		if cl.Text == ob.Src || strings.Contains(ob.Src, cl.Text) {
+			return cl
+		}
+	}
+	return nil
+}
+
+func tryReplay(o *checkOpts, ob *Obligation, c *FuncCtx) (out string) {
+	defer func() {
+		if r := recover(); r != nil {
+			out = fmt.Sprintf("REPLAY: not attempted (replay generator failed: %v)", r)
+		}
+	}()
+	return replayGeneric(o, ob, c)
+}
